@@ -82,6 +82,14 @@ def lenI {α : Type} (s : List α) : Int := (s.length : Int)
 /-- `s[i]` for `0 ≤ i < len s` (the translator emits the bound check before the use). -/
 def idx (s : List UInt8) (i : Int) : UInt8 := s.getD i.toNat 0
 
+/-- `s[i] = v` for `0 ≤ i < len s` (the translator emits the bound check before the use). -/
+def setAt {α : Type} (s : List α) (i : Int) (v : α) : List α := s.set i.toNat v
+
+/-- A callee (an `io.Reader`) writes the data `d` into the window `s[lo:hi]` of the caller's
+buffer: `d` is cut to the window's length; everything else keeps its value. -/
+def writeAt {α : Type} (s : List α) (lo hi : Int) (d : List α) : List α :=
+  s.take lo.toNat ++ d.take (hi.toNat - lo.toNat) ++ s.drop (lo.toNat + (d.take (hi.toNat - lo.toNat)).length)
+
 /-- `s[i]` on a slice of abstract objects. -/
 def idxG {α : Type} [Inhabited α] (s : List α) (i : Int) : α := s.getD i.toNat default
 
